@@ -869,6 +869,13 @@ func genC10(rng *rand.Rand, seed uint64, tier string) *Script {
 	for b := 0; b < nb; b++ {
 		for i, n := 0, 1+rng.IntN(6); i < n; i++ {
 			switch k := rng.IntN(23); {
+			case k == 22 || k == 21 && rng.IntN(2) == 0: // a holder of nothing but tokens, then merely touched by an EVM message
+				f := fmt.Sprintf("fresh%d", rng.IntN(3))
+				if rng.IntN(2) == 0 {
+					ops = append(ops, Op{K: "erc20", W: rng.IntN(g.Wallets), Mut: "transfer", Ref: rng.IntN(nTok), A: []string{f, pick(rng, "5", "40")}})
+				} else {
+					ops = append(ops, Op{K: "eth", W: rng.IntN(g.Wallets), To: f, Val: "0", Gas: pick(rng, "i", "i+1000"), Price: "b+1", Tip: "1"})
+				}
 			case k >= 20: // several precompile calls in one tx, through frames of which some revert
 				wop := genWitness(rng, &g)
 				wop.To = fmt.Sprintf("erc20:%d", rng.IntN(nTok))
